@@ -722,17 +722,20 @@ func (m *Manager) publishBlockInternal(ctx context.Context) error {
 		return fmt.Errorf("failed to save block: %w", err)
 	}
 
-	// Update the store height before submitting to the DA layer but after committing to the DB
 	headerHeight := header.Height()
-	if err = m.store.SetHeight(ctx, headerHeight); err != nil {
-		return err
-	}
 
 	newState.DAHeight = m.daHeight.Load()
 	// After this call m.lastState is the NEW state returned from ApplyBlock
-	// updateState also commits the DB tx
+	// updateState also commits the DB tx. The state is persisted before the store height is
+	// advanced: after a crash in between, startup raises the height to the state's height,
+	// whereas a height ahead of the state could never be repaired.
 	if err = m.updateState(ctx, newState); err != nil {
 		return fmt.Errorf("failed to update state: %w", err)
+	}
+
+	// Update the store height before submitting to the DA layer but after committing to the DB
+	if err = m.store.SetHeight(ctx, headerHeight); err != nil {
+		return err
 	}
 
 	m.recordMetrics(data)
